@@ -14,6 +14,7 @@
 #include <csignal>
 #include <pthread.h>
 #include <set>
+#include <sys/wait.h>
 #include <unistd.h>
 
 #ifndef VF_CK
@@ -194,6 +195,7 @@ struct Args
     int         part{0}, parts{1}; // program partition for parallel processes
     int         verbose{0};
     int         alloc_points{0};
+    int         seqcrash{0}; // replay mode: only answer whether some sequential order of the program dies too
     int         clocked{0}; // programs with a clock-tick thread; oracle on deadlines (C04, C05, C17)
 };
 static const char* g_ckname = "";
@@ -206,7 +208,7 @@ static void crash_report(const char* why)
         _exit(3);
     std::string p = g_crash_writer(why);
     char        b[1200];
-    int         n = snprintf(b, sizeof b, "\nCRASH {\"clause\":\"%s\",\"replay\":\"%s\"}\n", why, p.c_str());
+    int         n = snprintf(b, sizeof b, "\nCRASH {\"clause\":\"%s\",\"replay\":\"%s\",\"races\":%d}\n", why, p.c_str(), (int)g_races);
     (void)!write(1, b, n);
 }
 static void on_signal(int sig)
@@ -1264,6 +1266,32 @@ struct E2
         fclose(f);
         g_hash_mode = cfg.hash;
         t0          = wall();
+        if (a.seqcrash)
+        {
+            // does any sequential order of the same operations die as well?  (each order in a child process)
+            build_cands(p);
+            int dying = 0;
+            for (auto& c : cands)
+            {
+                fflush(stdout);
+                pid_t pid = fork();
+                if (pid == 0)
+                {
+                    signal(SIGABRT, SIG_DFL);
+                    signal(SIGSEGV, SIG_DFL);
+                    alarm(30);
+                    SeqOut so;
+                    run_seq(p, c.order, a.clocked ? 0 : 0, so);
+                    _exit(0);
+                }
+                int st = 0;
+                waitpid(pid, &st, 0);
+                if (!(WIFEXITED(st) && WEXITSTATUS(st) == 0))
+                    dying++;
+            }
+            printf("SEQCRASH %d of %zu sequential orders fail fatally\n", dying, cands.size());
+            return dying ? 10 : 0;
+        }
         printf("program: %s\n", prog_str(p).c_str());
         Out o = run_schedule(p, choices, a.clocked ? 3 : 0);
         if (o.deadlock)
@@ -1416,6 +1444,8 @@ int main(int argc, char** argv)
             a.clocked = atoi(nx());
         else if (s == "--alloc-points")
             a.alloc_points = atoi(nx());
+        else if (s == "--seqcrash")
+            a.seqcrash = 1;
         else
         {
             fprintf(stderr, "unknown argument %s\n", s.c_str());
